@@ -333,7 +333,58 @@ def tables_worker(args):
     return hutil.export(chk)
 
 
+def names_worker(args):
+    """struct/union/enum names of a module: '$N' (unnamed) -> 'struct $N', '$foo' (typedef-only) -> 'foo', 'foo' -> 'struct foo',
+    and _unrealize_name gives the stored name back (it is what do_realize_lazy_struct searches for)"""
+    prop, tier, kind, n = args
+    chk = hutil.sub_check(prop, tier)
+    mod = irgen.backend()
+    label = 'names:len=%d' % n
+    ex = llsym.Executor(mod, dict(llsym.LIBC), loop_bound=64)
+
+    def h(ex):
+        mem = ex.mem
+        cs = [z3.BitVec('c%d' % i, 8) for i in range(n)]
+        for c in cs:
+            ex.assume(c != 0)
+        src = mem.alloc(n + 1, 'stored name', 'input')
+        for i, c in enumerate(cs):
+            mem.store(src.base + i, c, 1)
+        mem.store(src.base + n, 0, 1)
+        prefix = mem.alloc(8, 'prefix', 'heap', fill=0)
+        for i, ch in enumerate(b'struct '):
+            mem.store(prefix.base + i, ch, 1)
+        out = mem.alloc(7 + n + 1, 'realized name (exact size)', 'input')
+        ex.call('_realize_name', [out.base, prefix.base, src.base])
+        inputs = dict(('c%d' % i, c) for i, c in enumerate(cs))
+        typedef_only = z3.And(cs[0] == ord('$'), cs[1] != ord('$'), z3.Not(z3.And(cs[1] >= 48, cs[1] <= 57))) if n >= 2 else z3.BoolVal(False)
+        if n == 1:
+            typedef_only = z3.BoolVal(False)      # '$' alone: srcname[1] is the terminator, not a digit -> see below
+            ex.assume(cs[0] != ord('$'))
+        is_t = ex.decide(typedef_only)
+        hutil.witness(chk, ex, label + (':typedef-only' if is_t else ':tagged'))
+        want = (cs[1:] + [0]) if is_t else ([c for c in b'struct '] + cs + [0])
+        got = [bv(mem.load(out.base + i, 1), 8) for i in range(len(want))]
+        hutil.discharge(chk, ex, label + ':realized-name', z3.And(*[g == w for g, w in zip(got, want)]), inputs)
+        back = mem.alloc(n + 2, 'unrealized name (exact size)', 'input')
+        ex.call('_unrealize_name', [back.base, out.base])
+        got2 = [bv(mem.load(back.base + i, 1), 8) for i in range(n + 1)]
+        # the round trip is the identity unless a typedef-only name itself starts with 'struct ' / 'union ' / 'enum ' (not an identifier)
+        ident = z3.And(*[z3.Or(z3.And(c >= 48, c <= 57), z3.And(c >= 65, c <= 90), z3.And(c >= 97, c <= 122), c == 95, c == ord('$')) for c in cs])
+        hutil.discharge(chk, ex, label + ':unrealize(realize(name))==name', z3.Implies(ident, z3.And(*[g == w for g, w in zip(got2, cs + [0])])), inputs)
+
+    def on_oob(ex, what_, model):
+        chk.report_failure('%s: name buffer overflow: %s' % (label, what_), {}, None, None)
+    ex.on_oob = on_oob
+    res = ex.explore(h, max_paths=5000)
+    hutil.finish_explore(chk, ex, res, label)
+    chk.functions = irgen.func_info(mod, sorted(ex.called))
+    return hutil.export(chk)
+
+
 def dispatch(args):
+    if args[2] == 'names':
+        return names_worker(args)
     if args[2] == 'tables':
         return tables_worker(args)
     return (py_worker if args[2] == 'py' else c_worker)(args)
@@ -355,5 +406,8 @@ def run(chk):
                 if bf:
                     continue
             cases.append(P + ('tables', fl_, bf))
+    for n in range(1, 6):
+        cases.append(P + ('names', n))
+    chk.bounds['names'] = 'every NUL-free stored name of 1..5 characters through _realize_name / _unrealize_name'
     chk.bounds['tables'] = 'one struct/union (5 flag combinations) with one plain or bit-field member, one enum, one typename: every 32-bit type index, field opcode word and bit width'
     hutil.run_cases(chk, cases, dispatch)
